@@ -6,6 +6,7 @@ self-validation battery analyse an edited variant of one file without touching t
 from __future__ import annotations
 
 import ast
+import copy
 import hashlib
 import os
 from typing import Dict, Iterator, Optional
@@ -138,6 +139,27 @@ class _Normalise(ast.NodeTransformer):
                 e = ast.copy_location(ast.BinOp(left=e, op=ast.Add(), right=x), node)
             return e
         return node
+
+    def _unroll(self, node):
+        """[f(v) for v in (a, b)] over a short literal sequence is [f(a), f(b)]."""
+        self.generic_visit(node)
+        if len(node.generators) == 1:
+            g = node.generators[0]
+            if isinstance(g.target, ast.Name) and not g.ifs and not g.is_async and isinstance(g.iter, (ast.Tuple, ast.List)) and 1 <= len(g.iter.elts) <= 6 \
+                    and not any(isinstance(x, ast.Starred) for x in g.iter.elts):
+                var = g.target.id
+
+                class R(ast.NodeTransformer):
+                    def __init__(self, val):
+                        self.val = val
+
+                    def visit_Name(self, n):  # noqa: N802
+                        return copy.deepcopy(self.val) if n.id == var and isinstance(n.ctx, ast.Load) else n
+                if not any(isinstance(n, (ast.Lambda, ast.ListComp, ast.GeneratorExp, ast.SetComp, ast.DictComp, ast.NamedExpr)) for n in ast.walk(node.elt)):
+                    return ast.copy_location(ast.List(elts=[R(x).visit(copy.deepcopy(node.elt)) for x in g.iter.elts], ctx=ast.Load()), node)
+        return node
+
+    visit_ListComp = visit_GeneratorExp = _unroll
 
     def visit_IfExp(self, node):
         # canonical polarity: `a if not c else b` -> `b if c else a` (decided before the test itself is canonicalised)
